@@ -136,6 +136,29 @@ def run(chk):
             if nviol <= 5:
                 chk.violation({"kind": "law", "law": law, "expr": expr, "doc": d, "impl": got.decode("utf-8", "replace"),
                                "expect": want.decode("utf-8", "replace")}, True, "update law %s fails for %s" % (law, expr))
+    # ---- histories: a later put on a prefix overrides what an earlier put created below it; |= writes f's first result only
+    hist = []
+    for d, p, v1, v2 in laws[: (1500 if thorough else 250)]:
+        P = path_expr(p)
+        w = lit(chk.rng.choice(evalgen.TYPEY + ["q", 3, None, True]))
+        below = path_expr(p + (chk.rng.choice(evalgen.KEYS + [0, 1]),) + ((chk.rng.choice(evalgen.KEYS),) if chk.rng.random() < 0.3 else ()))
+        hist.append(("override", d, ("pipe", ("assign", below, v2), ("assign", P, w)), ("assign", P, w)))
+        hist.append(("override-get", d, ("pipe", ("pipe", ("assign", below, v2), ("assign", P, w)), P), ("pipe", ("collect", w), ("index", ("self",), None))))
+        hist.append(("update-first", d, ("update", P, ("union", w, v2)), ("update", P, w)))
+        hist.append(("update-first", d, ("update", P, ("union", ("union", v2, w), ("self",))), ("update", P, v2)))
+    hout = evalcheck.impl_eval([(a, d) for _, d, a, b in hist] + [(b, d) for _, d, a, b in hist])
+    for k, (law, d, a, b) in enumerate(hist):
+        ga, gb = hout[k], hout[len(hist) + k]
+        # a path through a scalar is not addressable: the first put then yields no result and there is nothing to compare
+        ok = ga.startswith(b"OK\n") and gb.startswith(b"OK\n") and ga != b"OK\n"
+        chk.count((law, evalgen.render(a), json.dumps(d)), nontrivial=ok)
+        if ok and ga != gb:
+            nviol += 1
+            if nviol <= 8:
+                chk.violation({"kind": "law", "law": law, "expr": evalgen.render(a), "doc": d, "impl": ga.decode("utf-8", "replace"),
+                               "expect": gb.decode("utf-8", "replace"), "same_as": evalgen.render(b)}, True,
+                              "update law %s fails: %s differs from %s" % (law, evalgen.render(a), evalgen.render(b)))
+    chk.extra["history_law_instances"] = len(hist)
     # ---- reading the new value must not change what it reads (frame for the RHS): end-of-sequence and missing-key reads
     rd = []
     fixed_docs = [{"a": 1, "b": [1, 2]}, {"b": []}, {"a": {"x": 1}, "b": [[1], [2, 3]]}, {"a": None, "b": {"c": [5]}}, [[1], [2]]]
